@@ -58,3 +58,83 @@ package kv
 //@   loop 2 invariant calls(sf.family.commitEditLog) == old(calls(sf.family.commitEditLog)) && calls(sf.family.removePendingOutput) == old(calls(sf.family.removePendingOutput))
 //@   loop 3 invariant calls(sf.family.commitEditLog) == old(calls(sf.family.commitEditLog)) && calls(sf.family.removePendingOutput) == old(calls(sf.family.removePendingOutput))
 //@ end
+
+//@ # ---- rollup (C04): a source file that the target family already references is not rolled up again ---------
+//@ func Family.ID
+//@   modifies nothing
+//@ end
+//@ func Store.Name
+//@   modifies nothing
+//@ end
+//@ func Family.familyInfo
+//@   modifies nothing
+//@ end
+//@ func family.familyInfo
+//@   assume
+//@   modifies nothing
+//@ end
+//@ func family.ID
+//@   assume
+//@   modifies nothing
+//@ end
+//@ extern func path/filepath.Split
+//@   modifies nothing
+//@ end
+//@ func github.com/lindb/lindb/kv/version.FamilyVersion.GetLiveReferenceFiles
+//@   modifies nothing
+//@ end
+//@ # takenAt: logical time at which a snapshot was taken (meaningful in functions verified with a clock)
+//@ ghost field github.com/lindb/lindb/kv/version.Snapshot.takenAt int
+//@ func Family.GetSnapshot
+//@   norefine
+//@   modifies nothing
+//@   ensures result != nil && result.takenAt == now()
+//@ end
+//@ func github.com/lindb/lindb/kv/version.Version.GetFile
+//@   modifies nothing
+//@   ensures result1 ==> (result0 != nil && result0.fileNumber == fileNumber)
+//@ end
+//@ func github.com/lindb/lindb/kv/version.Compaction.AddReferenceFiles
+//@   assume
+//@   modifies c.editLog
+//@ end
+//@ func newCompactionState
+//@   assume
+//@   modifies nothing
+//@   fresh
+//@ end
+//@ ghost field CompactJob.ran bool
+//@ func newCompactJobFunc
+//@   modifies nothing
+//@   ensures result != nil
+//@ end
+//@ func CompactJob.Run
+//@   modifies *
+//@ end
+//@ stable family.familyVersion
+//@ func family.doRollupWork
+//@   prop C04
+//@   arith math
+//@   requires sourceFamily != nil && f.familyVersion != nil
+//@   modifies *
+//@   ensures[nothing_to_roll_up_runs_no_job] len(sourceFiles) == 0 ==> err == nil
+//@   loop 1 invariant targetFiles != nil && all(k, "table.FileNumber", has(targetFiles, k) ==> exists(i, 0, rangeindex + 1, sourceFiles[i] == k))
+//@   loop 2 invariant[files_already_referenced_by_the_target_are_filtered_out] targetFiles != nil && forall(i, 0, rangeindex + 1, !has(targetFiles, files[i]))
+//@   loop 3 invariant[only_files_that_are_not_yet_referenced_are_rolled_up] forall(j, 0, len(inputFiles), inputFiles[j] != nil && has(targetFiles, inputFiles[j].fileNumber))
+//@   loop 3 invariant[one_reference_record_per_input] len(logs) == len(inputFiles)
+//@ end
+
+//@ # the rollup mapping itself: a source slot's timestamp, and the target slot that contains a timestamp
+//@ pure intervalKind(i int64) int = ite(i >= 3600000, 3, ite(i >= 300000, 2, 1))
+//@ func rollup.GetTimestamp
+//@   prop C04
+//@   arith math
+//@   requires int64(r.source) >= 1000 && int64(r.source) <= 86400000 && r.sourceFTime >= 0 && r.sourceFTime <= 4102444800000
+//@   ensures[timestamp_of_a_source_slot] result == r.sourceFTime + int64(slot) * int64(r.source)
+//@ end
+//@ func rollup.CalcSlot
+//@   prop C04
+//@   arith math
+//@   requires int64(r.target) >= 1000 && tsOK(timestamp) && calMs(r.targetFTime) && r.targetFTime <= timestamp && timestamp <= kFamilyEnd(intervalKind(int64(r.target)), r.targetFTime)
+//@   ensures[the_target_slot_contains_the_timestamp] r.targetFTime + int64(result) * int64(r.target) <= timestamp && timestamp < r.targetFTime + int64(result) * int64(r.target) + int64(r.target)
+//@ end
